@@ -173,8 +173,12 @@ theorem xref_stream_rt (x : XrefMap) (last : Nat) (d : Dict) (size : Int)
     (hW : d.get W_KEY = some (.arr (XREF_W.map fun (w : Nat) => Obj.int (Int.ofNat w)))) :
     ∃ table, decodeXrefStream d (xrefStreamContent (streamSecs x last))
         = .ok (table, (size % (U32 : Int)).toNat, ((d.remove LENGTH).remove W_KEY).remove INDEX) ∧
-      ∀ n, table.get n = if 1 ≤ n ∧ n ≤ last then normalOf x n else none := by
-  refine ⟨insertAll [] (assigns (streamSecs x last)), ?_, ?_⟩
+      (∀ n, table.get n = if 1 ≤ n ∧ n ≤ last then normalOf x n else none) ∧
+      (table.map (·.1)).Nodup := by
+  refine ⟨insertAll [] (assigns (streamSecs x last)), ?_, ?_, ?_⟩
+  rotate_left 2
+  · rw [insertAll_eq_applyAssigns]
+    exact applyAssigns_nodup _ [] (by simp)
   · have hlen : 7 ≤ (xrefStreamContent (streamSecs x last)).length := by
       rw [xrefStreamContent_length]
       have hsum : ((streamSecs x last).map fun s => s.2.length).sum = (assigns (streamSecs x last)).length := by
@@ -229,7 +233,7 @@ example : ∃ table tr, decodeXrefStream
        (W_KEY, .arr (XREF_W.map fun (w : Nat) => Obj.int (Int.ofNat w)))]
       (xrefStreamContent (streamSecs [(1, (15, 0)), (3, (100, 7))] 3)) = .ok (table, 4, tr)
     ∧ table.get 3 = some (.normal 100 7) ∧ table.get 2 = none := by
-  obtain ⟨table, h1, h2⟩ := xref_stream_rt [(1, (15, 0)), (3, (100, 7))] 3
+  obtain ⟨table, h1, h2, _⟩ := xref_stream_rt [(1, (15, 0)), (3, (100, 7))] 3
     [(SIZE, .int 4), (INDEX, xrefStreamIndex (streamSecs [(1, (15, 0)), (3, (100, 7))] 3)),
      (W_KEY, .arr (XREF_W.map fun (w : Nat) => Obj.int (Int.ofNat w)))] 4
     (by intro n off g h
